@@ -35,7 +35,8 @@ func IsInvalidType(t types.Type) bool {
 
 // IsSliceType returns true if the given type is a slice type.
 func IsSliceType(t types.Type) bool {
-	_, ok := t.(*types.Slice)
+	// A defined type such as "type Names []string" is a slice as well.
+	_, ok := t.Underlying().(*types.Slice)
 	return ok
 }
 
@@ -100,7 +101,7 @@ func PkgOf(t types.Type) *types.Package {
 
 // SliceElement returns the type of the element in a slice type.
 func SliceElement(t types.Type) types.Type {
-	if slice, ok := t.(*types.Slice); ok {
+	if slice, ok := t.Underlying().(*types.Slice); ok {
 		return slice.Elem()
 	}
 	return nil
